@@ -24,9 +24,23 @@ def string_standin(ctx):
     kw = {"max_steps": 20000}
 
     class Str:
-        def __init__(self, parts=()):
-            self.s = list(parts)
+        def __init__(self, parts=(), escape=True):
             self.original = "stale%zzz%"
+            if parts is None or isinstance(parts, str):  # text: the parser of the source decides the parts
+                self.s = []
+                self.call("__init__", parts, escape)
+                self.original = "stale%zzz%"
+            else:
+                self.s = list(parts)
+
+        def __str__(self):
+            return self.call("__str__")
+
+        def __iter__(self):
+            return iter(self.call("__iter__"))
+
+        def __len__(self):
+            return self.call("__len__")
 
         def contains_placeholder(self, *a, **k):
             return any(isinstance(x, Placeholder) for x in self.s)
@@ -196,3 +210,33 @@ def run_backend_convert(ctx, per_rule=None, fmt=None, reused=False):
     except Raised as ex:
         out.raised = ex
     return out
+
+
+def wildcard_string_standin():
+    """(S, wm, SpecialChars): a SigmaString stand-in whose elements are characters, the multi wildcard `wm` or an escaped
+    literal ('\\*'); startswith/endswith answer for the wildcard *part*, str() prints the escaped plain form."""
+    class _W:
+        def __repr__(self): return "<*>"
+
+    wm = _W()
+
+    class S:
+        def __init__(self, t=""):
+            self.e = [wm if c == "*" else c for c in t] if isinstance(t, str) else list(t)
+
+        @staticmethod
+        def _el(o):
+            return [wm] if o is wm else list(o.e) if isinstance(o, S) else [wm if c == "*" else c for c in o]
+
+        def __add__(self, o): return S(self.e + S._el(o))
+        def __radd__(self, o): return S(S._el(o) + self.e)
+        def startswith(self, o): return bool(self.e) and (self.e[0] is wm if o is wm else str(self).startswith(o))
+        def endswith(self, o): return bool(self.e) and (self.e[-1] is wm if o is wm else str(self).endswith(o))
+        def __str__(self): return "".join("*" if x is wm else x for x in self.e)
+        def __len__(self): return len(self.e)
+        def __eq__(self, o): return isinstance(o, S) and len(o.e) == len(self.e) and all(a is b or (a is not wm and b is not wm and a == b) for a, b in zip(self.e, o.e))
+        def __hash__(self): return len(self.e)
+        def __repr__(self): return "S" + repr(self.e)
+
+    sc = type("SpecialChars", (), {"WILDCARD_MULTI": wm})
+    return S, wm, sc
